@@ -1513,6 +1513,14 @@ _R3_SEND_OLD = ("        async with self._runtime._reload_lock(self.run_id):\n  
 _R3_SEND_ARMS = ("            if run_is_active:\n                await self._runtime._store.update_handler_status(\n                    self.run_id, idle_since=None\n                )\n"
                  "            else:\n                await self._runtime._ensure_active_run_locked(self.run_id)\n")
 
+# the sender written over locals bound to the runtime object and the run id (bound before the lock is taken; these are not reads of shared state)
+_R3_LOC_BIND = "        runtime = self._runtime\n        run_id = self.run_id\n"
+_R3_LOC_WITH = "        async with runtime._reload_lock(run_id):\n"
+_R3_LOC_ARMS = ("                await runtime._store.update_handler_status(run_id, idle_since=None)\n            else:\n"
+                "                await runtime._ensure_active_run_locked(run_id)\n")
+_R3_REL_TAIL_OLD = ("            if run_id not in self._active_run_ids:\n                return\n            self._active_run_ids.discard(run_id)\n            self._abort_inner_run(run_id)\n"
+                    "            logger.info(f\"Released idle handler [run_id={run_id}] from memory\")\n")
+
 _R7_OLD = "        await asyncio.sleep(self._idle_timeout)\n        self._deferred_release_tasks.pop(run_id, None)\n        await self._release_idle_handler(run_id)\n"
 _R7_HEAD = "        lifecycle = await self._get_lifecycle()\n        if not await lifecycle.begin_release(run_id):\n            return\n"
 _R7_SEND = "        await external.send_event(TickIdleRelease())\n"
@@ -1588,7 +1596,23 @@ TWINS = [
     Twin("R3 local liveness test, send after leaving the lock", _SRV, _R3_SEND_OLD + "            await self._decorated.send_event(tick)\n",
          "        async with self._runtime._reload_lock(self.run_id):\n            run_is_active = self.run_id in self._runtime._active_run_ids\n" + _R3_SEND_ARMS
          + "        await self._decorated.send_event(tick)\n", "C26.R3"),
-    Twin("R2 benign: marker read through a local", _SRV, "            if len(handlers) != 1 or handlers[0].idle_since is None:\n                return\n            elapsed = (\n                datetime.now(timezone.utc) - handlers[0].idle_since\n            ).total_seconds()\n",
+    Twin("R3 benign: runtime object and run id bound to locals before the lock, positive membership test, arms swapped", _SRV, _R3_SEND_OLD,
+         _R3_LOC_BIND + _R3_LOC_WITH + "            if run_id in runtime._active_run_ids:\n" + _R3_LOC_ARMS, None),
+    Twin("R3 benign: locals for runtime / run id, membership held in a local read under the lock", _SRV, _R3_SEND_OLD,
+         _R3_LOC_BIND + _R3_LOC_WITH + "            still_loaded = run_id in runtime._active_run_ids\n            if still_loaded:\n" + _R3_LOC_ARMS, None),
+    Twin("R3 locals for runtime / run id, active set read through the local before the lock is taken", _SRV, _R3_SEND_OLD,
+         _R3_LOC_BIND + "        still_loaded = run_id in runtime._active_run_ids\n" + _R3_LOC_WITH + "            if still_loaded:\n" + _R3_LOC_ARMS, "C26.R3"),
+    Twin("R3 locals for runtime / run id, send after leaving the lock", _SRV, _R3_SEND_OLD + "            await self._decorated.send_event(tick)\n",
+         _R3_LOC_BIND + _R3_LOC_WITH + "            if run_id in runtime._active_run_ids:\n" + _R3_LOC_ARMS + "        await self._decorated.send_event(tick)\n", "C26.R3"),
+    Twin("R3 locals for runtime / run id, sender takes a lock the releaser does not", _SRV, _R3_SEND_OLD,
+         _R3_LOC_BIND + "        async with runtime._send_lock(run_id):\n" + "            if run_id in runtime._active_run_ids:\n" + _R3_LOC_ARMS, "C26.R3"),
+    Twin("R3 benign: releaser's last early return as a positive block, swapped comparison, split early returns", _SRV,
+         *multi(_SRV, [("            if len(handlers) != 1 or handlers[0].idle_since is None:\n                return\n            elapsed = (\n                datetime.now(timezone.utc) - handlers[0].idle_since\n            ).total_seconds()\n            if elapsed < self._idle_timeout:\n                return\n",
+                        "            if len(handlers) != 1:\n                return\n            idle_since = handlers[0].idle_since\n            if idle_since is None:\n                return\n            idle_for = datetime.now(timezone.utc) - idle_since\n            if self._idle_timeout > idle_for.total_seconds():\n                return\n"),
+                       (_R3_REL_TAIL_OLD, "            if run_id in self._active_run_ids:\n                self._active_run_ids.discard(run_id)\n                self._abort_inner_run(run_id)\n                logger.info(f\"Released idle handler [run_id={run_id}] from memory\")\n")]), None),
+    Twin("R3 releaser's positive membership block placed after the lock region", _SRV, _R3_REL_TAIL_OLD,
+         "        if run_id in self._active_run_ids:\n            self._active_run_ids.discard(run_id)\n            self._abort_inner_run(run_id)\n            logger.info(f\"Released idle handler [run_id={run_id}] from memory\")\n", "C26.R3"),
+    Twin("R2 benign: marker read through a local", _SRV,"            if len(handlers) != 1 or handlers[0].idle_since is None:\n                return\n            elapsed = (\n                datetime.now(timezone.utc) - handlers[0].idle_since\n            ).total_seconds()\n",
          "            if len(handlers) != 1:\n                return\n            idle_since = handlers[0].idle_since\n            if idle_since is None:\n                return\n            elapsed = (datetime.now(timezone.utc) - idle_since).total_seconds()\n", None),
     Twin("R3 benign: lock bound to a local", _SRV, "        async with self._reload_lock(run_id):\n            handlers = await self._store.query", "        lock = self._reload_lock\n        async with lock(run_id):\n            handlers = await self._store.query", None),
     # ---- R4
